@@ -315,7 +315,57 @@ def _alarm(signum, frame):
 SUITES = {"walks": suite_walks, "walks-getnext": lambda o, t, s: suite_walks(o, t, s, "getnext"),
           "walks-bulk": lambda o, t, s: suite_walks(o, t, s, "bulk"), "wire": suite_wire, "wire-emit": lambda o, t, s: suite_wire(o, t, s, "emit"),
           "wire-values": lambda o, t, s: suite_wire(o, t, s, "values"), "usm": suite_usm}
-REPLAY = {"walk": replay_walk}
+def err_case(status, index, op, k):
+    """one agent error answer (status, index) to an operation on k OIDs: the documented exception class carrying the raw
+    status and naming the binding error-index selects"""
+    import puresnmp.exc as E
+    from puresnmp.exc import ErrorResponse
+    table = {getattr(E, n).IDENTIFIER: getattr(E, n) for n in dir(E) if isinstance(getattr(E, n), type)
+             and issubclass(getattr(E, n), ErrorResponse) and getattr(E, n) is not ErrorResponse}
+    ag = Scripted(OPS_DB, {"status": status, "index": index})
+    c = Client("127.0.0.1", V2C("public"), sender=ag)
+
+    def attempt(coro):
+        try:
+            return run(coro), None
+        except Exception as e:  # noqa
+            return None, e
+    oids = [(1, 3, 1, i + 1, 0) for i in range(k)]
+    coro = {"multiget": lambda: c.multiget([OID(otext(o)) for o in oids]),
+            "multiset": lambda: c.multiset({OID(otext(o)): Integer(1) for o in oids}),
+            "bulkget": lambda: c.bulkget([], [OID(otext(o)) for o in oids], 1)}[op]()
+    res, exc = attempt(coro)
+    want_cls = table.get(status, ErrorResponse)
+    ok = type(exc) is want_cls and exc.error_status == status
+    want_oid = otext(oids[index - 1]) if 1 <= index <= k and op != "bulkget" else None
+    if ok and op != "bulkget":
+        got_oid = str(exc.offending_oid) if exc.offending_oid else ""
+        if (got_oid or None) != want_oid:
+            ok = False
+    return ok, {"got": repr(res or exc) + (" offending_oid=%s" % getattr(exc, "offending_oid", None) if exc is not None else ""),
+                "required": "%s with status %d naming %s" % (want_cls.__name__, status, want_oid)}
+
+
+def replay_err(s):
+    return err_case(s["status"], s["index"], s.get("op", "multiget"), max(1, s.get("k", 1)))
+
+
+def replay_pycall(s):
+    """{"kind": "pycall", "setup": <python statements>, "expr": <expression>, "expected": <expression of the required value>}
+    evaluated against the real library: reproduced when the value differs from the required one (or an exception leaves)"""
+    env = {}
+    exec(s.get("setup", ""), env)
+    try:
+        got = eval(s["expr"], env)
+        exc = None
+    except Exception as e:  # noqa
+        got, exc = None, "%s: %s" % (type(e).__name__, e)
+    want = eval(s["expected"], env)
+    ok = exc is None and got == want
+    return ok, {"expr": s["expr"], "got": repr(got), "exception": exc, "required": repr(want)}
+
+
+REPLAY = {"walk": replay_walk, "pycall": replay_pycall, "err": replay_err}
 
 
 def main(argv):
@@ -454,25 +504,10 @@ def suite_ops(out, tier, seed, part=None):
         for status in list(range(1, 20)) + [255, 65536, -1, -128]:
             for index in (0, 1, 2, 3, 7, -1):
                 for op in ("multiget", "multiset", "bulkget"):
-                    ag = Scripted(OPS_DB, {"status": status, "index": index})
-                    c = client(ag)
-                    oids = [(1, 3, 1, 1, 0), (1, 3, 1, 2, 0)]
                     out.case(("err", status, index, op))
-                    coro = {"multiget": lambda: c.multiget([OID(otext(o)) for o in oids]),
-                            "multiset": lambda: c.multiset({OID(otext(o)): Integer(1) for o in oids}),
-                            "bulkget": lambda: c.bulkget([], [OID(otext(o)) for o in oids], 1)}[op]()
-                    res, exc = attempt(coro)
-                    want_cls = table.get(status, ErrorResponse)
-                    ok = type(exc) is want_cls and exc.error_status == status
-                    if ok:
-                        n = 2
-                        want_oid = otext(oids[index - 1]) if 1 <= index <= n and op != "bulkget" else None
-                        got_oid = str(exc.offending_oid) if exc.offending_oid else ""
-                        if op != "bulkget" and (got_oid or None) != want_oid:
-                            ok = False
+                    ok, detail = err_case(status, index, op, 2)
                     if not ok:
-                        out.fail({"kind": "err", "status": status, "index": index, "op": op}, repr(res or exc),
-                                 "%s with status %d" % (want_cls.__name__, status))
+                        out.fail({"kind": "err", "status": status, "index": index, "op": op, "k": 2}, detail["got"], detail["required"])
     # ---- C15: pythonic wrapper
     if part in (None, "C15"):
         from datetime import timedelta
